@@ -60,6 +60,10 @@ THEOREMS = [
     "PV.C03.lex_none_iff_too_long",
     "PV.C03.lex_err_offset",
     "PV.C03.offset_arith_u32",
+    # lexer + parser, end to end on the models (PV.Pipeline.parseText: lexer model -> filter -> token conversion ->
+    # reference parser PV.Prog.parseProgram)
+    "PV.C03.lex_parse_total_model",
+    "PV.C03.lex_parse_never_panics",
 ]
 TRUSTED = [
     "Lean 4.33.0 kernel; axioms limited to propext, Classical.choice, Quot.sound",
@@ -82,6 +86,11 @@ TRUSTED = [
     "lean/Drv/C03.lean",
 ]
 PARTIAL = [
+    "lex_parse_total_model composes the lexer theorems with the reference parser PV.Prog.parseProgram at MODEL level: for every "
+    "text that fits the offset space the pipeline answers a tree (stable under more parser fuel), a rejection, or the first "
+    "lexical error with its offset inside the input; never a panic, never out of fuel on the lexer side. Not claimed: that a "
+    "rejection is never an out-of-fuel artefact of the reference parser (PV.Prog.parseProgram_fuel_adequate_full is stated, "
+    "not proved; every PROG request exercises it), nor anything about the REAL LR driver beyond the PROG correspondence",
     "the parser stage: the LALRPOP LR driver loop, the 1.7k grammar actions and the function.rs validators have no model "
     "(direct monitors only; PV.Prog models the grammar as a recogniser, without error positions). The glue around the driver "
     "IS modelled (PV.C03.ErrConv: parse_error_from_lalrpop, not_before, marker placement): errconv_offset_in_input / "
